@@ -4,7 +4,7 @@ from .runner import register
 TRUSTED = ["rustc nightly MIR construction and Instance::try_resolve", "vp-driver fact extraction (coverage assertion: every fn/method/closure body present)",
            "the Python engine (CFG, dominance, terms, call graph)", "reviewed tables under /verif/tables", "external crates behave as publicly documented"]
 
-register("C10", ["c10", "c10g", "hazards", "pins"],
+register("C10", ["c10", "c10g", "wiring", "hazards", "pins"],
          "Static may-panic analysis. The fact base is rebuilt from /repo's current tree; the resolved call graph (direct calls, class-hierarchy expansion of trait/dyn calls, fn values, closures) is closed from the network runner, bft, engine and executor entry points, every ProtoFmt/ProtoRepr::read, ByteFmt/TextFmt::decode and rpc::Handler impl; every MIR overflow/div-by-zero assert, unwrap/expect, explicit panic, Index call and documented-panic external API in that closure must be machine-discharged, in the reviewed table, or is reported. Decides the 'never panics' clause structurally (over-approximation: a pass means no unreviewed panic-capable instruction is reachable); does not execute anything.",
          ["panics inside external crates are limited to their documented '# Panics' sections", "stack exhaustion and allocation failure are out of scope", "reviewed table entries are correct"],
          TRUSTED)
@@ -39,7 +39,7 @@ register("C16", ["c16", "hazards", "pins"],
          ["tokio watch::send_modify runs the closure under the watch lock"],
          TRUSTED)
 
-register("C12", ["c12", "sigchain_node", "hazards", "pins"],
+register("C12", ["c12", "sigchain_node", "wiring", "hazards", "pins"],
          "Static guard tables, term checks, dominance and who-may-call facts: the four handshake functions are enumerated over genesis/session/signature/(peer) atoms and Ok must be reachable in exactly the all-true row; the session id compared and signed is SessionId(encode(id(<the stream parameter>))) and Stream.id is the noise handshake hash; the identity returned is the key of the very signature that verified; in the four stream runners insert is dominated by handshake success, serving and remove are dominated by insert success, remove post-dominates on normal completion with the same key; the pool's insert/remove closures are enumerated as tables; pool construction terms and the callers of rpc::Service::run are exact sets. Unforgeability of signatures and secrecy of the noise session are cryptographic assumptions.",
          ["ed25519/BLS signature unforgeability and the noise handshake hash binding (snow) hold", "tokio watch runs the guarded closures under its lock"],
          TRUSTED)
@@ -74,7 +74,7 @@ register("C01", ["c01", "c02", "c03", "phase_gate", "c04", "sigchain", "c07", "c
          ["the ChonkyBFT safety argument for the combination of the mechanisms (spec/)", "C07 lemma"],
          TRUSTED)
 
-register("C15", ["c15", "hazards", "pins"],
+register("C15", ["c15", "wiring", "hazards", "pins"],
          "The numeric clause (at most b + T/r + 1 permits per window, arrival-order service under every interleaving) quantifies over runtime values and schedules and is NOT decided. This check decides the structural mechanisms that are necessary for it: acquire reserves permits only after its last cancellation point and under the fair mutex held from lock to reservation; limiter state has exactly three writers and permits are consumed only in Permit::drop after refreshing; every OPEN is preceded by a limiter permit in its iteration; handlers run only in tasks spawned after a stream reservation from a queue of R::INFLIGHT streams, one request per stream; every production server/client is created with the rate of its own RPC kind; a request above the burst never returns; and the deadline arithmetic is pinned to its formulas (start + duration_or_max(refresh*need), quotient and remainder of the same nanosecond count).",
          ["tokio Mutex is FIFO-fair as documented", "the ctx clock is monotone"],
          TRUSTED)
@@ -94,7 +94,7 @@ register("C19", ["c19", "c19w", "c08", "hazards", "pins"],
          ["tokio watch/oneshot semantics", "the peer's push_block_store_state handler stores what the peer announced"],
          TRUSTED)
 
-register("C06", ["c06", "c16", "hazards", "pins"],
+register("C06", ["c06", "c16", "wiring", "hazards", "pins"],
          "Progress (a liveness statement over fair suffixes of all schedules) is NOT decided by static analysis. This check decides the presence and wiring of the mechanisms the property's anchors name, as necessary conditions: the replica loop turns an expired receive deadline into a timeout and keeps looping; on every successful path and in every phase the timeout starter re-arms the timer and re-sends ReplicaTimeout and (for view != 0) ReplicaNewView - the retransmission that un-sticks lagging replicas; view 0 bootstraps with a timeout; new-view/commit/timeout handlers start newer views; the view starter publishes the justification to the proposer, broadcasts new-view and resets the deadline; the proposer proposes iff it leads the justified view, bounded by the view timeout; the input queue keeps the freshest vote (C16).",
          ["timeouts keep firing and messages are eventually delivered (the property's own premises)"],
          TRUSTED)
